@@ -381,6 +381,10 @@ func xmlAttrEscape(s string) string {
 	return b.String()
 }
 
+// c14Twin selects how the (hostile) Location is spelled next to a harmless one: a namespace-qualified attribute of the same
+// local name is a different attribute to XML, but a decoder that matches by local name may let it shadow the plain one.
+var c14Twin = ""
+
 func c14MdDoc(slot c14Slot, binding, loc string, respLoc *string, nested bool, entityID string) []byte {
 	var b strings.Builder
 	if nested {
@@ -395,7 +399,20 @@ func c14MdDoc(slot c14Slot, binding, loc string, respLoc *string, nested bool, e
 	if binding != "<absent>" {
 		fmt.Fprintf(&b, ` Binding="%s"`, xmlAttrEscape(binding))
 	}
-	fmt.Fprintf(&b, ` Location="%s"`, xmlAttrEscape(loc))
+	switch c14Twin {
+	case "":
+		fmt.Fprintf(&b, ` Location="%s"`, xmlAttrEscape(loc))
+	case "qualified-after":
+		fmt.Fprintf(&b, ` Location="https://ok.example/a" xmlns:x="urn:example:x" x:Location="%s"`, xmlAttrEscape(loc))
+	case "qualified-before":
+		fmt.Fprintf(&b, ` xmlns:x="urn:example:x" x:Location="%s" Location="https://ok.example/a"`, xmlAttrEscape(loc))
+	case "md-prefixed-after":
+		fmt.Fprintf(&b, ` Location="https://ok.example/a" xmlns:md="urn:oasis:names:tc:SAML:2.0:metadata" md:Location="%s"`, xmlAttrEscape(loc))
+	case "plain-hostile-qualified-good":
+		fmt.Fprintf(&b, ` Location="%s" xmlns:x="urn:example:x" x:Location="https://ok.example/a"`, xmlAttrEscape(loc))
+	case "qualified-binding-too":
+		fmt.Fprintf(&b, ` Location="https://ok.example/a" xmlns:x="urn:example:x" x:Location="%s" x:Binding="urn:oasis:names:tc:SAML:2.0:bindings:HTTP-POST" x:ResponseLocation="%s"`, xmlAttrEscape(loc), xmlAttrEscape(loc))
+	}
 	if respLoc != nil {
 		fmt.Fprintf(&b, ` ResponseLocation="%s"`, xmlAttrEscape(*respLoc))
 	}
@@ -539,6 +556,9 @@ func c14Metadata(c *core.Ctx, mine func() bool) {
 	}
 	run := func(slot c14Slot, binding, loc string, resp *string, nested bool) {
 		desc := fmt.Sprintf("%s/%s binding=%q Location=%q ResponseLocation=%v nested=%v", slot.descriptor, slot.element, binding, truncate(loc, 60), respStr(resp), nested)
+		if c14Twin != "" {
+			desc += " spelled=" + c14Twin
+		}
 		doc := c14MdDoc(slot, binding, loc, resp, nested, so.SPMeta)
 		c.Journal("C14 md " + desc)
 		c.Eval()
@@ -597,6 +617,25 @@ func c14Metadata(c *core.Ctx, mine func() bool) {
 				if mine() { // hostile ResponseLocation next to a good Location
 					l := loc
 					run(slot, b, "https://ok.example/a", &l, c.Rng.Intn(4) == 0)
+				}
+			}
+		}
+	}
+	// the same values spelled as namespace-qualified twins of the plain attribute
+	for _, tw := range []string{"qualified-after", "qualified-before", "md-prefixed-after", "plain-hostile-qualified-good", "qualified-binding-too"} {
+		for _, slot := range c14Slots {
+			for bi, b := range c14MdBindings {
+				for li, loc := range c14Locations {
+					if c.Quick() && (bi+li)%4 != 0 {
+						continue
+					}
+					if !mine() {
+						continue
+					}
+					c14Twin = tw
+					run(slot, b, loc, nil, false)
+					c14Twin = ""
+					c.Count("metadata_documents_with_qualified_twin_attributes")
 				}
 			}
 		}
